@@ -16,7 +16,13 @@ func TestC13Rapid(t *testing.T) {
 		c := rec.Begin()
 		nGen := rapid.IntRange(1, 3).Draw(rt, "genesis")
 		maxVals := uint32(rapid.IntRange(nGen, 5).Draw(rt, "max"))
-		w, err := newValWorld(nGen, maxVals, uint32(rapid.SampledFrom([]int{0, 1, 3, 100}).Draw(rt, "retention")))
+		var gp []int64
+		if rapid.IntRange(0, 3).Draw(rt, "genesisPowers") == 0 {
+			for j := 0; j < nGen; j++ {
+				gp = append(gp, int64(rapid.SampledFrom([]int{1, 2, 10, 1000}).Draw(rt, "gpower")))
+			}
+		}
+		w, err := newValWorld(nGen, maxVals, uint32(rapid.SampledFrom([]int{0, 1, 3, 100}).Draw(rt, "retention")), gp...)
 		if err != nil {
 			rt.Fatalf("C13 violated at genesis: %v", err)
 		}
@@ -24,6 +30,27 @@ func TestC13Rapid(t *testing.T) {
 			rt.Fatalf("C13 violated at genesis: %v", err)
 		}
 		blocks := 0
+		if w.histN > 0 && rapid.IntRange(0, 11).Draw(rt, "longHistory") == 0 {
+			// a chain that has been running for a while with a long retention, which is then cut back in one step
+			if _, err := w.setParamsDirect(w.maxVals, 400); err != nil {
+				rt.Fatalf("%v", err)
+			}
+			n := rapid.IntRange(105, 300).Draw(rt, "emptyBlocks")
+			for j := 0; j < n; j++ {
+				if err := w.beginBlock(); err != nil {
+					rt.Fatalf("C13 violated in block %d: %v", j, err)
+				}
+				if _, err := w.endBlock(); err != nil {
+					rt.Fatalf("C13 violated in block %d: %v", j, err)
+				}
+				w.l2.NextBlock(5 * time.Second)
+			}
+			if _, err := w.setParamsDirect(w.maxVals, uint32(rapid.IntRange(1, 20).Draw(rt, "cutTo"))); err != nil {
+				rt.Fatalf("%v", err)
+			}
+			w.log = append(w.log[:1], fmt.Sprintf("... %d empty blocks with retention 400, then retention cut to %d", n, w.histN))
+			c.Class("long-history-then-retention-cut")
+		}
 		repeatSteps(rt, 12, func(i int) {
 			if err := w.runBlock(rt); err != nil {
 				rt.Fatalf("C13 violated in block %d: %v\nhistory:\n%s", i, err, w.history())
@@ -58,6 +85,10 @@ func (w *valWorld) clone() *valWorld {
 		return o
 	}
 	c.bonded, c.pending, c.keyOf, c.touched = cp(w.bonded), cp(w.pending), cp(w.keyOf), cp(w.touched)
+	c.pow = map[string]int64{}
+	for k, v := range w.pow {
+		c.pow[k] = v
+	}
 	c.zeroed = map[string]bool{}
 	for k, v := range w.zeroed {
 		c.zeroed[k] = v
